@@ -66,7 +66,7 @@ def ord_term(I, ty, tm, td):
     t = ORD(ty, tm, td)
     key = ('ORD', t.get_id())
     if key not in I.p.ghost:
-        I.p.ghost[key] = True
+        I.p.ghost[key] = t     # pins the term (z3 reuses ids)
         I.p.assume(z3.And(t == t_ordinal(ty, tm, td),
                           z3.Implies(t_valid_date(ty, tm, td),
                                      z3.And(YOF(t) == ty, MOF(t) == tm, DOF(t) == td, t >= 1, t <= MAXORD))))
@@ -77,7 +77,7 @@ def proj_terms(I, to):
     """(Y, M, D) of an ordinal term (valid for 1 <= o <= MAXORD)"""
     key = ('PROJ', to.get_id())
     if key not in I.p.ghost:
-        I.p.ghost[key] = True
+        I.p.ghost[key] = to     # pins the term (z3 reuses ids)
         y, m, d = YOF(to), MOF(to), DOF(to)
         o2 = ord_term(I, y, m, d)
         I.p.assume(z3.Implies(z3.And(to >= 1, to <= MAXORD), z3.And(t_valid_date(y, m, d), o2 == to)))
@@ -114,12 +114,13 @@ def make_datetime(I, y, mo, d, h=0, mi=0, s=0, us=0, is_date=False):
 
 
 def fresh_datetime(I, hint, lo_year=1, hi_year=9999):
-    y = I.fresh(INT, hint + '_y')
-    m = I.fresh(INT, hint + '_m')
-    d = I.fresh(INT, hint + '_d')
+    """A fresh datetime as (ordinal, second of day); year/month/day are introduced lazily (proj_terms)."""
+    o = I.fresh(INT, hint + '_ord')
     sec = I.fresh(INT, hint + '_sec')
-    I.p.assume(z3.And(t_valid_date(y.t, m.t, d.t), y.t >= lo_year, y.t <= hi_year, sec.t >= 0, sec.t < 86400))
-    return SDateTime(Sym(INT, ord_term(I, y.t, m.t, d.t)), sec, (y, m, d))
+    lo = _dt.date(lo_year, 1, 1).toordinal()
+    hi = _dt.date(hi_year, 12, 31).toordinal()
+    I.p.assume(z3.And(o.t >= lo, o.t <= hi, sec.t >= 0, sec.t < 86400))
+    return SDateTime(o, sec)
 
 
 def ymd(I, dt):
@@ -144,10 +145,8 @@ def dt_total(I, dt):
 
 
 def dt_from_total(I, t):
-    o = I.fresh(INT, 'ord')
-    s = I.fresh(INT, 'sec')
-    I.p.assume(z3.And(t == o.t * 86400 + s.t, s.t >= 0, s.t < 86400))
-    return SDateTime(o, s)
+    """datetime from a total-seconds term (no fresh variables: usable under quantifiers)"""
+    return SDateTime(Sym(INT, t / 86400), Sym(INT, t % 86400))
 
 
 def from_total_checked(I, total, is_date=False):
@@ -174,12 +173,37 @@ def simp_int(v):
     return v
 
 
+def td_total(I, td):
+    if isinstance(td.secs, int) and td.secs == 0:
+        return I.binop(ast.Mult, td.days, 86400)
+    return I.binop(ast.Add, I.binop(ast.Mult, td.days, 86400), td.secs)
+
+
+def add_dt_td(I, a, b, sgn):
+    days = b.days if sgn > 0 else I.binop(ast.Sub, 0, b.days)
+    secs = b.secs if sgn > 0 else I.binop(ast.Sub, 0, b.secs)
+    if isinstance(secs, int) and secs == 0:
+        o = simp_int(I.binop(ast.Add, a.ord, days))
+        s = a.sec
+    else:
+        tot = I.binop(ast.Add, a.sec, secs)
+        o = simp_int(I.binop(ast.Add, I.binop(ast.Add, a.ord, days), I.binop(ast.FloorDiv, tot, 86400)))
+        s = simp_int(I.binop(ast.Mod, tot, 86400))
+    if isinstance(o, int):
+        if o < 1 or o > MAXORD:
+            raise PyExc('OverflowError', 'date value out of range')
+    elif not I.branch(z3.And(o.t >= 1, o.t <= MAXORD)):
+        raise PyExc('OverflowError', 'date value out of range')
+    return SDateTime(o, s, None, a.is_date)
+
+
 def make_timedelta(I, args, kwargs):
     names = ['days', 'seconds', 'microseconds', 'milliseconds', 'minutes', 'hours', 'weeks']
     vals = dict(zip(names, args))
     vals.update(kwargs)
-    mult = {'days': 86400, 'seconds': 1, 'minutes': 60, 'hours': 3600, 'weeks': 604800}
-    total = 0
+    mult = {'days': (1, 0), 'seconds': (0, 1), 'minutes': (0, 60), 'hours': (0, 3600), 'weeks': (7, 0)}
+    days = 0
+    secs = 0
     for k, v in vals.items():
         v = I.resolve(v)
         if isinstance(v, Unknown):
@@ -193,8 +217,12 @@ def make_timedelta(I, args, kwargs):
                 v = int(v)
             else:
                 raise Unsupported('timedelta with fractional value')
-        total = I.binop(ast.Add, total, I.binop(ast.Mult, v, mult[k]))
-    return STimedelta(total)
+        md, ms = mult[k]
+        if md:
+            days = I.binop(ast.Add, days, I.binop(ast.Mult, v, md))
+        else:
+            secs = I.binop(ast.Add, secs, I.binop(ast.Mult, v, ms))
+    return STimedelta(days, secs)
 
 
 # ------------------------------------------------------------------------------- operators
@@ -202,24 +230,24 @@ def binop(I, op, a, b):
     L = _L()
     if isinstance(a, SDateTime) and isinstance(b, STimedelta):
         if op is ast.Add:
-            return from_total_checked(I, simp_int(I.binop(ast.Add, Sym(INT, dt_total(I, a)), b.total)), a.is_date)
+            return add_dt_td(I, a, b, 1)
         if op is ast.Sub:
-            return from_total_checked(I, simp_int(I.binop(ast.Sub, Sym(INT, dt_total(I, a)), b.total)), a.is_date)
+            return add_dt_td(I, a, b, -1)
     if isinstance(a, STimedelta) and isinstance(b, SDateTime) and op is ast.Add:
         return binop(I, op, b, a)
     if isinstance(a, SDateTime) and isinstance(b, SDateTime) and op is ast.Sub:
-        return STimedelta(simp_int(Sym(INT, dt_total(I, a) - dt_total(I, b))))
+        return STimedelta(simp_int(I.binop(ast.Sub, a.ord, b.ord)), simp_int(I.binop(ast.Sub, a.sec, b.sec)))
     if isinstance(a, STimedelta) and isinstance(b, STimedelta):
         if op is ast.Add:
-            return STimedelta(I.binop(ast.Add, a.total, b.total))
+            return STimedelta(I.binop(ast.Add, a.days, b.days), I.binop(ast.Add, a.secs, b.secs))
         if op is ast.Sub:
-            return STimedelta(I.binop(ast.Sub, a.total, b.total))
+            return STimedelta(I.binop(ast.Sub, a.days, b.days), I.binop(ast.Sub, a.secs, b.secs))
         if op is ast.FloorDiv:
-            return I.binop(ast.FloorDiv, a.total, b.total)
+            return I.binop(ast.FloorDiv, td_total(I, a), td_total(I, b))
     if isinstance(a, STimedelta) and I.kind_of(b) == INT and op is ast.Mult:
-        return STimedelta(I.binop(ast.Mult, a.total, b))
+        return STimedelta(I.binop(ast.Mult, a.days, b), I.binop(ast.Mult, a.secs, b))
     if isinstance(b, STimedelta) and I.kind_of(a) == INT and op is ast.Mult:
-        return STimedelta(I.binop(ast.Mult, b.total, a))
+        return STimedelta(I.binop(ast.Mult, b.days, a), I.binop(ast.Mult, b.secs, a))
     if isinstance(a, DateDelta) or isinstance(b, DateDelta):
         return datedelta_binop(I, op, a, b)
     if isinstance(a, (SDateTime, STimedelta)) or isinstance(b, (SDateTime, STimedelta)):
@@ -232,9 +260,9 @@ def eq(I, a, b):
     if isinstance(a, SDateTime) and isinstance(b, SDateTime):
         if is_conc(a.ord, a.sec, b.ord, b.sec):
             return (a.ord, a.sec) == (b.ord, b.sec)
-        return dt_total(I, a) == dt_total(I, b)
+        return z3.And(T(I, a.ord) == T(I, b.ord), T(I, a.sec) == T(I, b.sec))
     if isinstance(a, STimedelta) and isinstance(b, STimedelta):
-        e = I.compare(ast.Eq, a.total, b.total)
+        e = I.compare(ast.Eq, td_total(I, a), td_total(I, b))
         return e if isinstance(e, bool) else e.t
     if isinstance(a, (SDateTime, STimedelta, DateDelta)) or isinstance(b, (SDateTime, STimedelta, DateDelta)):
         return False
@@ -247,7 +275,7 @@ def order(I, op, a, b):
         ta, tb = dt_total(I, a), dt_total(I, b)
         return {ast.Lt: ta < tb, ast.LtE: ta <= tb, ast.Gt: ta > tb, ast.GtE: ta >= tb}[op]
     if isinstance(a, STimedelta) and isinstance(b, STimedelta):
-        r = I.compare(op, a.total, b.total)
+        r = I.compare(op, td_total(I, a), td_total(I, b))
         return r if isinstance(r, bool) else r.t
     if isinstance(a, (SDateTime, STimedelta)) or isinstance(b, (SDateTime, STimedelta)):
         raise PyExc('TypeError', 'ordering datetime with non-datetime')
@@ -285,9 +313,13 @@ def get_attribute(I, o, name):
         return BoundBuiltin(o, name)
     if isinstance(o, STimedelta):
         if name == 'days':
-            return simp_int(I.binop(ast.FloorDiv, o.total, 86400))
+            if isinstance(o.secs, int) and 0 <= o.secs < 86400:
+                return o.days
+            return simp_int(I.binop(ast.Add, o.days, I.binop(ast.FloorDiv, o.secs, 86400)))
         if name == 'seconds':
-            return simp_int(I.binop(ast.Mod, o.total, 86400))
+            if isinstance(o.secs, int):
+                return o.secs % 86400
+            return simp_int(I.binop(ast.Mod, o.secs, 86400))
         if name == 'microseconds':
             return 0
         return BoundBuiltin(o, name)
@@ -355,7 +387,7 @@ def call_method(I, recv, name, args, kwargs):
             raise Unsupported('datetime.' + name)
     if isinstance(recv, STimedelta):
         if name == 'total_seconds':
-            t = recv.total
+            t = td_total(I, recv)
             return float(t) if isinstance(t, int) else Sym(REAL, z3.ToReal(t.t))
     return L.NOTFOUND
 
@@ -482,7 +514,7 @@ def datedelta_binop(I, op, a, b):
             raise Unsupported('datedelta: day does not exist in target month (semantics of the missing library not assumed)')
         res = make_datetime(I, ny, nm, d, get_attribute(I, a, 'hour'), get_attribute(I, a, 'minute'), get_attribute(I, a, 'second'), 0, a.is_date)
     if not (isinstance(b.days, int) and b.days == 0):
-        res = binop(I, ast.Add, res, STimedelta(I.binop(ast.Mult, I.binop(ast.Mult, sgn, b.days), 86400)))
+        res = binop(I, ast.Add, res, STimedelta(I.binop(ast.Mult, sgn, b.days), 0))
     return res
 
 
